@@ -19,7 +19,7 @@ func init() {
 		Cases: func(tier string) int { return tierN(tier, 3000, 24000) },
 		Run:   runC07,
 		Rule: "case = one history from the C01 (plain), C04 (GC cycles, with and without preceding flush, time-limited) or C02 (Close/reopen through snapshot and rescan) generators, by case index mod 3 (plus, case index mod 16 == 7, an index-GC churn history: 40-90 rounds of 1-3 writes + Flush on 60-300 byte index files with an index GC cycle every second or third round); after every completed Flush, after every Close and at the end the independent fsck reader evaluates the C07 invariant on the authoritative bucket table (live table while open, snapshot after Close); only fsck problems are verdicts here, among them that the table a rescan of the index log would build resolves to the same record lists as the live table (the files alone determine the state); " +
-			"non-trivial iff >=3 quiescent states were examined AND >=2 keys shared a bucket AND a file rolled over; distinct = hash of (configuration, digests, operations). Crash slice (case index mod 16 == 15): a C03-style history is imaged at every hook point (torn variants included, except torn primary appends = trigger class of known finding C03-F1); fsck is evaluated on each image with the bucket table a rescan would build (log replay - no snapshot exists after a crash); each image is then recovered by OpenStore, used further (puts, flushes, GC cycles) with imaging still on, and fsck is evaluated again on every image of the continuation and on the closed store. Post-concurrency states are examined by C05/C06 with the same fsck.",
+			"non-trivial iff >=3 quiescent states were examined AND >=2 keys shared a bucket AND a file rolled over; distinct = hash of (configuration, digests, operations). Crash slice (case index mod 16 == 15): a C03-style history is imaged at every hook point (torn variants included, except torn primary appends = trigger class of known finding C03-F1); fsck is evaluated on each image with the bucket table a rescan would build (log replay - no snapshot exists after a crash); each image is then recovered by OpenStore, used further (puts, flushes, GC cycles) with imaging still on, and fsck is evaluated again on every image of the continuation and on the closed store. Case index mod 16 == 11 alternates between one of C06's scripted collector x caller windows (G7-G11, G24; only the fsck problems found on the closed store count here) and one crash exploration of a legacy-store conversion (as C10, stores without dangling entries). Post-stress states are examined by C05/C06 with the same fsck.",
 		Assumptions: []string{
 			"fsck (internal/fsck) shares no parsing code with /repo; formats as in DESIGN.md Appendix A",
 			"the invariant is exactly the statement's list; unreferenced garbage, stale lists, zero-length files and empty record lists are legal",
@@ -39,6 +39,39 @@ func runC07(c run.Ctx) *core.CaseResult {
 	}
 	if c.Index%16 == 15 {
 		return runC07Crash(c)
+	}
+	if c.Index%16 == 11 {
+		// post-concurrency and post-upgrade-crash states (the statement quantifies over the explorations of
+		// C05/C06 and C10 as well): alternately one of C06's scripted collector x caller windows, with only
+		// the fsck problems on the closed store as verdicts, and one crash exploration of a legacy conversion
+		j := c.Index / 16
+		if j%2 == 0 {
+			res := &core.CaseResult{ID: c.ID(), Verdict: "held"}
+			c2 := c
+			c2.Index = (j / 2) * 8
+			runGated(c2, res, "C06")
+			res.ID = c.ID()
+			var keep []core.Violation
+			for _, v := range res.Violations {
+				if v.Kind == "fsck" {
+					keep = append(keep, v)
+				}
+			}
+			res.Violations = keep
+			if len(keep) == 0 && res.Verdict == "violated" {
+				res.Verdict = "held"
+			}
+			res.Add("fsck_states_post_gated_concurrency", 1)
+			return res
+		}
+		for k := 0; k < 40; k++ {
+			cc := c10Gen(run.Ctx{Prop: "C07legacy", Seed: c.Seed, Index: c.Index*64 + k, Tier: c.Tier}, true)
+			if cc.ls.Dangling == 0 {
+				res := c10CrashExplore(c, cc)
+				res.Add("legacy_upgrade_crash_cases", 1)
+				return res
+			}
+		}
 	}
 	if c.Index%16 == 7 {
 		// index-GC churn: few small record lists per index file, superseded one after the other over many
